@@ -27,10 +27,11 @@ import (
 )
 
 type step struct {
-	K    string `json:"k"` // req | adv
-	Node int    `json:"node,omitempty"`
-	Err  bool   `json:"err,omitempty"`
-	Dt   uint64 `json:"dt,omitempty"`
+	K    string  `json:"k"` // req | adv | reload-pct
+	Node int     `json:"node,omitempty"`
+	Err  bool    `json:"err,omitempty"`
+	Dt   uint64  `json:"dt,omitempty"`
+	Pct  float64 `json:"pct,omitempty"`
 }
 
 type caseDesc struct {
@@ -62,7 +63,13 @@ func genCase(rng *rand.Rand) *caseDesc {
 			bad[i] = true
 		}
 	}
+	pcts := []float64{0, 0.07, 0.25, 0.29, 0.5, 0.57, 0.9, 1}
 	for i, n := 0, 40+rng.Intn(160); i < n; i++ {
+		if rng.Intn(40) == 0 {
+			// the rule is loaded again with only the ejection percentage changed
+			c.Steps = append(c.Steps, step{K: "reload-pct", Pct: pcts[rng.Intn(len(pcts))]})
+			continue
+		}
 		if rng.Intn(6) == 0 {
 			c.Steps = append(c.Steps, step{K: "adv", Dt: []uint64{1, 10, uint64(c.Retry) - 1, uint64(c.Retry), uint64(c.Retry) + 1, 3 * uint64(c.Retry), 12000}[rng.Intn(7)]})
 			continue
@@ -99,9 +106,23 @@ func runCase(idx int, c *caseDesc) {
 		run.Violation("C20/"+clause, fmt.Sprintf("step %d at t=%d (%d known nodes, max ejection %v, active recovery %v): %s", i, clk.Ms(), len(nodes), c.Pct, c.Active, msg), c)
 	}
 	sawFilter := 0
+	pct := c.Pct
 	for i, st := range c.Steps {
 		if st.K == "adv" {
 			clk.AddMs(st.Dt)
+			continue
+		}
+		if st.K == "reload-pct" {
+			r2 := *rule
+			r2.Rule = &cb.Rule{}
+			*r2.Rule = *rule.Rule
+			r2.MaxEjectionPercent = st.Pct
+			if _, err := outlier.LoadRuleOfResource(res, &r2); err != nil {
+				fail(i, "load-error", err.Error())
+				return
+			}
+			pct = st.Pct
+			run.Count("percentage_reloads", 1)
 			continue
 		}
 		now := clk.Ms()
@@ -144,9 +165,9 @@ func runCase(idx int, c *caseDesc) {
 				return
 			}
 		}
-		limit := int(math.Floor(c.Pct*float64(n) + 1e-9))
+		limit := int(math.Floor(pct*float64(n) + 1e-9))
 		if len(filter) > limit {
-			fail(i, "filter:exceeds-max-ejection", fmt.Sprintf("FilterNodes() has %d nodes %v, allowed floor(%v x %d) = %d", len(filter), filter, c.Pct, n, limit))
+			fail(i, "filter:exceeds-max-ejection", fmt.Sprintf("FilterNodes() has %d nodes %v, allowed floor(%v x %d) = %d", len(filter), filter, pct, n, limit))
 			e.Exit()
 			return
 		}
